@@ -10,17 +10,19 @@ from cutplace import errors, ranges
 import lexcommon as LX
 from common import B, L, O, P, S, Zn
 
-MODEL_FILES = ["Model/Lex.v", "Model/RangeParse.v", "Model/Ranges.v", "Model/DecRange.v"]
-HEADER = "From CP Require Import Model.Base Model.Ranges Model.Lex Model.RangeParse Model.Dec Model.DecRange.\n" + LX.LEX_HEADER + """
+MODEL_FILES = ["Model/Lex.v", "Model/RangeParse.v", "Model/Ranges.v", "Model/DecRange.v", "Model/RangeStr.v"]
+HEADER = "From CP Require Import Model.Base Model.Ranges Model.Lex Model.RangeParse Model.Dec Model.DecRange Model.RangeStr.\n" + LX.LEX_HEADER + """
 Inductive tcase :=
 | LexCase (s : text)
 | RangeCase (desc : text) (probes : list Z)
-| DecCase (desc : text) (probes : list (bool * N * Z)).      (* probe = sign, coefficient, exponent *)
+| DecCase (desc : text) (probes : list (bool * N * Z))       (* probe = sign, coefficient, exponent *)
+| StrCase (its : list item).                                 (* str(range) for a range with these items *)
 Inductive robs :=
 | RLex (r : lres)
 | RRange (items : list item) (lower upper : option Z) (verdicts : list bool)
 | REmpty (verdicts : list bool)                                (* empty description: no items at all *)
 | RDec (items : list (option dec * option dec)) (lower upper : option dec) (scale precision : Z) (verdicts : list bool)
+| RStr (t : text)
 | RInterface | RLeak.
 Definition run (c : tcase) : option robs :=      (* None = outside the model's domain *)
   match c with
@@ -31,6 +33,7 @@ Definition run (c : tcase) : option robs :=      (* None = outside the model's d
       | POk (Some its) => Some (RRange its (lower_limit (Some its)) (upper_limit (Some its)) (map (range_validate (Some its)) probes))
       | PInterface => Some RInterface | PLeak => Some RLeak | POutOfDomain => None
       end
+  | StrCase its => Some (RStr (range_str (Some its)))
   | DecCase d probes =>
       match decrange_of_text d with
       | DOk None _ _ => Some (REmpty (map (fun _ => true) probes))
@@ -52,6 +55,7 @@ Definition robs_eqb (m : option robs) (e : robs) : bool :=
     | REmpty v, REmpty v' => list_eqb Bool.eqb v v'
     | RDec i l u s p v, RDec i' l' u' s' p' v' =>
         list_eqb ditem_eqb i i' && od_eqb l l' && od_eqb u u' && Z.eqb s s' && Z.eqb p p' && list_eqb Bool.eqb v v'
+    | RStr a, RStr b => text_eqb a b
     | RInterface, RInterface | RLeak, RLeak => true
     | _, _ => false
     end
@@ -120,6 +124,23 @@ def range_case(desc, probes):
             "nontrivial": obs["kind"] == "range" and len(obs["items"]) >= 1, "tags": ["range", obs["kind"]]}
 
 
+def str_case(desc):
+    """the text a range prints for itself, and that this text describes the same range again"""
+    try:
+        r = ranges.Range(desc)
+        items = [list(i) for i in (r.items or [])]
+        text = str(r)
+        again = ranges.Range(text).items if r.items else None
+        obs = {"kind": "str", "text": text, "items": items, "again": None if again is None else [list(i) for i in again]}
+        coq = "(RStr %s)" % S(text)
+    except errors.InterfaceError:
+        items, obs, coq = [], {"kind": "interface"}, "(RStr %s)" % S("None")
+    except Exception as e:  # noqa
+        items, obs, coq = [], {"kind": "leak", "type": type(e).__name__}, "RLeak"
+    return {"coq": P("(StrCase %s)" % L(items, lambda i: P(O(i[0], Zn), O(i[1], Zn))), coq), "obs": obs,
+            "nontrivial": obs["kind"] == "str" and len(items) >= 1, "tags": ["range-str", obs["kind"]]}
+
+
 def verdict(r, v):
     try:
         r.validate("x", v)
@@ -172,6 +193,8 @@ def make_case(inp):
         return lex_case(inp["text"])
     if inp["kind"] == "range":
         return range_case(inp["desc"], inp["probes"])
+    if inp["kind"] == "str":
+        return str_case(inp["desc"])
     return dec_case(inp["desc"], inp["probes"])
 
 
@@ -183,6 +206,12 @@ def inside(items, v):
 
 
 def direct_oracle(inp, obs):
+    if inp["kind"] == "str":
+        if obs["kind"] == "leak":
+            return "printing the range %r raised %s" % (inp["desc"], obs["type"])
+        if obs["kind"] == "str" and obs["items"] and obs["again"] != obs["items"]:
+            return "the range %r prints itself as %r, which reads back as %r instead of %r" % (inp["desc"], obs["text"], obs["again"], obs["items"])
+        return None
     if inp["kind"] == "lex" or "den" not in inp:
         return None
     den = inp["den"]       # denotation of a well-formed, non-overlapping description, computed from its AST
@@ -344,6 +373,10 @@ def gen_inputs(tier, rnd):
     for _ in range(1200 if tier == "quick" else 15000):
         items = gen_items(rnd, rnd.randint(1, 6 if rnd.random() < 0.2 else 4))
         yield {"kind": "range", "desc": render(rnd, items, spell_int), "probes": probes_for(items), "den": items}
+        if rnd.random() < 0.3:
+            yield {"kind": "str", "desc": render(rnd, items, spell_int)}
+    for desc in ("", " ", "5", "-5, ...-10, 0...99, 1000...", "0x10:0x20", "'a'...'z', tab"):
+        yield {"kind": "str", "desc": desc}
     # the quote characters and the backslash as quoted limits (in the other kind of quotes or escaped), in front of
     # every separator spelling: the ellipsis pre-processing has to know where a quoted text ends
     for code, forms in ((39, ['"\'"', "'\\''", "'\\x27'"]), (34, ["'\"'", '"\\""', '"\\x22"']), (92, ["'\\\\'", '"\\\\"'])):
